@@ -1,5 +1,6 @@
 from mindsdb_sql.parser.ast.base import ASTNode
 from mindsdb_sql.parser.utils import indent
+from mindsdb_sql.parser.ast.select.identifier import Identifier
 
 
 class Update(ASTNode):
@@ -65,7 +66,7 @@ class Update(ASTNode):
         update_str = ''
         if self.update_columns is not None:
             update_ar = [
-                f'{k}={v.to_string()}'
+                f'{Identifier(parts=[k]).to_string()}={v.to_string()}'
                 for k, v in self.update_columns.items()
             ]
             update_str = ' set ' + ', '.join(update_ar)
